@@ -14,7 +14,11 @@ pub use dds::*;
 pub mod dds_async;
 
 /// Contains the DCPS logic which provides the behavior to the DDS API
+#[cfg(not(dust_dds_verif))]
 mod dcps;
+#[cfg(dust_dds_verif)]
+#[doc(hidden)]
+pub mod dcps;
 
 pub use dcps::{builtin_topics, infrastructure};
 
